@@ -215,11 +215,15 @@ fn main() {
                 let n = recs.len();
                 let mut v = Vec::with_capacity(n);
                 for k in 0..n {
-                    let r = &recs[(k * (2 * t + 1) + t * 7) % n];
-                    let mut o = run_one(r, poison && (k % 3 == t % 3), false);
-                    o["thread"] = Value::from(t);
-                    o["seq"] = Value::from(k);
-                    v.push(o);
+                    // each thread walks the records in its own order, with its own iterator shape and
+                    // its own stack poisoning pattern
+                    let step = [1usize, 3, 7, 11, 13, 17, 19, 23][t % 8];
+                    let idx = (k * step + t * 5) % n;
+                    let mut r = recs[idx].clone();
+                    let shape = (r.get("shape").and_then(|v| v.as_u64()).unwrap_or(0) + t as u64 + (k as u64 / 3)) % 7;
+                    r["shape"] = Value::from(shape);
+                    let o = run_one(&r, poison && ((k + t) % 2 == 0), false);
+                    v.push(json!({"id": o["id"], "thread": t, "seq": k, "shape": shape, "kind": o["out"]["kind"], "bits": o["out"]["bits"]}));
                 }
                 v
             }));
